@@ -250,7 +250,21 @@ def returns_with_conds(fn):
             out.append((cs, v, r))
     for r in returns_of(fn):
         split(conds(r, fn), r.value, r)
-    return out
+    return [(expand_literals(cs, fn), v, r) for cs, v, r in out]
+
+
+def expand_literals(lits, fn):
+    """A condition that is just a once-assigned flag (`unwrapped`, `not unwrapped`) stands for the flag's definition."""
+    defs = single_defs(fn)
+    res = []
+    for l in lits:
+        neg = l.startswith("not ")
+        nm = l[4:] if neg else l
+        if nm.isidentifier() and nm in defs:
+            res += literals(defs[nm], not neg)
+        else:
+            res.append(l)
+    return res
 
 
 def single_defs(fn):
@@ -298,7 +312,12 @@ def single_defs(fn):
 
     def stable(v):
         return all(count.get(x.id, 0) <= 1 for x in ast.walk(v) if isinstance(x, ast.Name))
-    out = {k: v for k, v in val.items() if count.get(k) == 1 and k not in mutated and not container(v) and stable(v)}
+    def pure_read(v):       # a name / attribute chain: the local is just another name for that object
+        while isinstance(v, ast.Attribute):
+            v = v.value
+        return isinstance(v, ast.Name)
+    params = {a.arg for a in ast.walk(fn) if isinstance(a, ast.arg)}
+    out = {k: v for k, v in val.items() if count.get(k) == 1 and k not in params and (k not in mutated or pure_read(v)) and not container(v) and stable(v)}
     try:
         fn._single_defs = out
     except Exception:
